@@ -433,4 +433,16 @@ example : (match gbsOptions [⟨[3, 1], some [7, 5], none⟩, ⟨[0, 2], some [4
     (match gbsOptions [⟨[2], none, some [1 / 8]⟩, ⟨[0, 1], none, none⟩] with
     | .ok r => decide (r = ([0, 1, 2], none, some [0, 0, 1 / 8])) | .error _ => false) = true := by decide +kernel
 
+/-- **fixed_layout_values.**  `validate_gate_parameters` matches a gate of the program with a gate of the layout exactly when
+every number hard-coded in the layout is met, within `1e-5`, by the program's number — or by EVERY value of the program's
+per-time-bin array — at that place; symbolic arguments are left to the template parameters. -/
+theorem fixed_layout_values (l p : List GArg) :
+    fixedValuesMatch l p = true ↔ ∀ xy ∈ l.zip p,
+      (∀ a b, xy = (.num a, .num b) → a - b ≤ defaultAtol ∧ b - a ≤ defaultAtol) ∧
+      (∀ a vs, xy = (.num a, .arr vs) → ∀ b ∈ vs, a - b ≤ defaultAtol ∧ b - a ≤ defaultAtol) :=
+  fixedValuesMatch_iff l p
+
+example : fixedValuesMatch [.sym "bs1", .num (11 / 7)] [.expr "p4", .arr [11 / 7, 11 / 7, 3 / 10]] = false ∧
+    fixedValuesMatch [.sym "bs1", .num (11 / 7)] [.expr "p4", .arr [11 / 7, 11 / 7]] = true := by decide +kernel
+
 end SFV.C12
